@@ -44,7 +44,7 @@ func appendCall(v ssa.Value) (base ssa.Value, elems []ssa.Value, ok bool) {
 
 // C11 — a phenotype expresses exactly the enabled part of its genome.
 func C11(p *Prog, r *Run) {
-	r.Explanation = "Decided: (1) Genesis provenance on every path of its loops: one NewNNodeCopy(node, node.Trait) per genome node, appended to the all-list always, to the input list exactly for Input/Bias nodes and to the output list exactly for Output nodes, recorded as the node's PhenotypeAnalogue; one NewLinkWithTrait(gene trait, gene weight, analogue of in-node, analogue of out-node, gene recurrence) per gene, exactly when the gene is enabled, appended once to the target's Incoming and once to the source's Outgoing; control nodes only for enabled modules, wired to the analogues of the listed inputs/outputs; the network is assembled from exactly those lists and stored as the genome's phenotype; (2) Organism.Phenotype builds the network iff the cache is empty and stores it, UpdatePhenotype always rebuilds; (3) NodeCount = len(allNodes)+len(controlNodes), LinkCount sums Incoming of the base nodes plus Incoming and Outgoing of the control nodes, Complexity is their sum; (4) the graph view delegates to edgeBetween with the right direction flag and iterates allNodesMIMO, From/To return graph.Empty for an absent id; (5) no method with a gonum interface result wraps a possibly-nil pointer (typed nil); (6) From/To list a control node exactly when the scan of its links finds the id, for every control node and every present node; (7) Genesis fails only for a genome without genes or without output nodes. Not decided: edgeBetween's case analysis for control nodes."
+	r.Explanation = "Decided: (1) Genesis provenance on every path of its loops: one NewNNodeCopy(node, node.Trait) per genome node, appended to the all-list always, to the input list exactly for Input/Bias nodes and to the output list exactly for Output nodes, recorded as the node's PhenotypeAnalogue; one NewLinkWithTrait(gene trait, gene weight, analogue of in-node, analogue of out-node, gene recurrence) per gene, exactly when the gene is enabled, appended once to the target's Incoming and once to the source's Outgoing; control nodes only for enabled modules, wired to the analogues of the listed inputs/outputs; the network is assembled from exactly those lists and stored as the genome's phenotype; (2) Organism.Phenotype builds the network iff the cache is empty and stores it, UpdatePhenotype always rebuilds; (3) NodeCount = len(allNodes)+len(controlNodes), LinkCount sums Incoming of the base nodes plus Incoming and Outgoing of the control nodes, Complexity is their sum; (4) the graph view delegates to edgeBetween with the right direction flag and iterates allNodesMIMO, Node returns the node found by the id lookup in allNodesMIMO (the nodeWithID helper or the same search written out / inlined) or nil, From/To return graph.Empty for an absent id; (5) no method with a gonum interface result wraps a possibly-nil pointer (typed nil); (6) From/To list a control node exactly when the scan of its links finds the id, for every control node and every present node; (7) Genesis fails only for a genome without genes or without output nodes. Not decided: edgeBetween's case analysis for control nodes."
 	gen := p.Func(PkgG, "Genome.Genesis")
 	r.Fn(FuncName(gen))
 	tm := NewTermer(gen)
@@ -406,17 +406,38 @@ func C11(p *Prog, r *Run) {
 			}
 			r.Check(ok, "graph."+name, p.Pos(fn.Pos()), "edgeBetween(u, v, "+directed+")", name+" does not delegate to edgeBetween(u, v, "+directed+") with its two ids in order")
 		}
-		nw := p.Func(PkgN, "Network.nodeWithID")
-		tn := NewTermer(nw)
-		okN := false
-		for _, b := range nw.Blocks {
-			if ret, ok := b.Instrs[len(b.Instrs)-1].(*ssa.Return); ok {
-				if t := tn.Of(ret.Results[0]); t.String() == "recv.allNodesMIMO[*]" {
-					okN = true
+		// The node lookup: the pinned helper nodeWithID, or - where a refactoring replaced it by a new helper that
+		// the normaliser inlined, or wrote the search out - a result variable that receives nil or the element of
+		// allNodesMIMO whose id was compared equal with the id parameter (robust_c11.go, c11Lookup).
+		nw := p.FuncOpt(PkgN, "Network.nodeWithID")
+		nodeFn := p.Func(PkgN, "Network.Node")
+		lkNode := newC11Lookup(nodeFn, NewTermer(nodeFn), nw)
+		if nw != nil {
+			tn := NewTermer(nw)
+			okN := false
+			for _, b := range nw.Blocks {
+				if ret, ok := b.Instrs[len(b.Instrs)-1].(*ssa.Return); ok {
+					if t := tn.Of(ret.Results[0]); t.String() == "recv.allNodesMIMO[*]" {
+						okN = true
+					}
 				}
 			}
+			r.Check(okN, "graph.nodeWithID", p.Pos(nw.Pos()), "searches allNodesMIMO", "nodeWithID does not search the list that includes the control nodes")
+		} else {
+			// no such helper in this tree: each of Node, From and To must carry the search itself
+			var missing []string
+			for _, name := range []string{"Node", "From", "To"} {
+				fn := p.Func(PkgN, "Network."+name)
+				if len(newC11Lookup(fn, NewTermer(fn), nil).inlineLookups()) == 0 {
+					missing = append(missing, name)
+				}
+			}
+			r.Check(len(missing) == 0, "graph.nodeWithID", p.Pos(nodeFn.Pos()), "no nodeWithID helper: Node, From and To each search allNodesMIMO for the id themselves",
+				"there is no nodeWithID helper and no search of allNodesMIMO (the list that includes the control nodes) for the id parameter is found in: "+strings.Join(missing, ", "))
 		}
-		r.Check(okN, "graph.nodeWithID", p.Pos(nw.Pos()), "searches allNodesMIMO", "nodeWithID does not search the list that includes the control nodes")
+		r.Fn(FuncName(nodeFn))
+		okNode, whyNode := lkNode.returnsLookup()
+		r.Check(okNode, "graph.Node", p.Pos(nodeFn.Pos()), "returns the node found in allNodesMIMO, or nil", "Node does not return the node with the given id looked up in allNodesMIMO (or nil): "+whyNode)
 		nodes := p.Func(PkgN, "Network.Nodes")
 		okNs := false
 		tns := NewTermer(nodes)
@@ -431,6 +452,7 @@ func C11(p *Prog, r *Run) {
 		for _, name := range []string{"From", "To"} {
 			fn := p.Func(PkgN, "Network."+name)
 			tf := NewTermer(fn)
+			lk := newC11Lookup(fn, tf, nw)
 			okE := false
 			for _, b := range fn.Blocks {
 				if ret, ok := b.Instrs[len(b.Instrs)-1].(*ssa.Return); ok {
@@ -445,7 +467,7 @@ func C11(p *Prog, r *Run) {
 					if isEmpty {
 						for _, gd := range Guards(b) {
 							// the lookup found nothing: `node == nil` taken, or `node != nil` not taken, either operand order
-							if x, y, isEq := eqCond(tf, gd); isEq && ((isCallTo(x, nw) && y.Op == "nil") || (isCallTo(y, nw) && x.Op == "nil")) {
+							if lk.absent(gd) {
 								okE = true
 							}
 						}
@@ -539,8 +561,13 @@ func C11(p *Prog, r *Run) {
 	})
 }
 
-// mayReturnNil: v is the result of a call to a function with a body in which some return yields nil.
+// mayReturnNil: v is the result of a call to a function with a body in which some return yields nil, or the
+// result variable (phi) of such a lookup inlined / written out in place: one of its inputs is nil or such a call.
 func mayReturnNil(v ssa.Value) bool {
+	if ph, isPhi := v.(*ssa.Phi); isPhi {
+		// the result variable of a lookup that was inlined or written out: nil on some path by construction
+		return c11PhiMayBeNil(ph)
+	}
 	var c *ssa.Call
 	idx := 0
 	switch x := v.(type) {
